@@ -13,7 +13,7 @@ NOT_CLAIMED = {}
 PROPS = {
     "C13": {
         "technique": "Coq proof (invariant by induction over all operation sequences) + model/implementation correspondence",
-        "level_text": "proof: theorems C13_model_meets_spec / C13_at_most_one_status / C13_status_before_body / C13_head_forwards_no_body / C13_hooks_in_one_operation / C13_stack_one_status / C13_stack_status_before_body / C13_stack_upper_answers (a writer whose underlying writer is another flamego writer: RWStack.v) "
+        "level_text": "proof: theorems C13_model_meets_spec / C13_at_most_one_status / C13_status_before_body / C13_head_forwards_no_body / C13_hooks_in_one_operation / C13_stack_one_status / C13_stack_status_before_body / C13_stack_head_no_body / C13_stack_upper_answers (a writer whose underlying writer is another flamego writer: RWStack.v) "
                       "hold for every method and every operation sequence of the Gallina model of response_writer.go; the model is tied to "
                       "the code by running both on the same generated sequences (incl. short writes of the underlying writer, an underlying writer that is an io.ReaderFrom, before functions that panic, and in a quarter of the cases a second writer created over the first after the first has had a life of its own) and judging "
                       "the implementation's own outputs with the extracted executable spec",
